@@ -3,7 +3,6 @@ package checks
 import (
 	"bytes"
 	"fmt"
-	"runtime"
 
 	"github.com/gregoryv/mq"
 
@@ -64,10 +63,10 @@ func (c04) Run(c *run.Ctx, phase, idx int) {
 }
 
 func c04Read(c *run.Ctx, kind string, in []byte) {
-	c.CurrentBytes("ReadPacket", in)
+	done := hugeCall(c, "ReadPacket", in)
 	res := mon.Read(bytes.NewReader(in))
+	done()
 	c.Eval(1)
-	collectAfterHuge(in)
 	entered := false
 	T := "?"
 	if h, err := ref.ParseHeader(in); err == nil {
@@ -149,11 +148,19 @@ func c04Unmarshal(c *run.Ctx, kind string, t, rk int, body []byte, reused *[16]m
 	c.Count("receivers", rname, 1)
 }
 
-// collectAfterHuge forces a collection after a call whose header declared
-// more than 16 MiB, so that the frame buffers of successive calls do not pile
-// up as uncollected garbage and trip the heap poller.
-func collectAfterHuge(in []byte) {
-	if h, err := ref.ParseHeader(in); err == nil && h.RemLen > 1<<24 {
-		runtime.GC()
+// hugeCall announces a ReadPacket call on in. For a header that declares a
+// large body it grants the watchdog the CPU allowance C05's budget gives such
+// a frame (2 us per declared byte) and, above 8 MiB, serialises the call
+// across workers; the returned function must be called afterwards.
+func hugeCall(c *run.Ctx, api string, in []byte) func() {
+	var declared int64
+	if h, err := ref.ParseHeader(in); err == nil {
+		declared = int64(h.RemLen)
 	}
+	release := c.HugeGate(declared)
+	c.CurrentBytes(api, in)
+	if declared > 1<<20 {
+		c.Allow(declared * 2000)
+	}
+	return release
 }
